@@ -43,7 +43,7 @@ def worker(rank, world, cfgfile, initfile, outfile):
     _, opt = _build(c2, vals, dc, given_params=params)
     for k in range(1, cfg["T"] + 1):
         for i, p in enumerate(params):
-            present = not (cfg.get("presence") == "symbolic" and not bool(vals.get(f"present_p{i}_s{k}", False)))
+            present = not (cfg.get("presence") == "symbolic" and (cfg.get("presence_params") is None or i in cfg["presence_params"]) and not bool(vals.get(f"present_p{i}_s{k}", False)))
             p.grad = distribute_tensor(_orig_vals(cfg, vals, "g", i, origs[i], k).reshape(origs[i]), mesh, plc) if present else None
         opt.step()
     json.dump([p.to_local().detach().tolist() for p in params], open(outfile, "w"))
@@ -102,7 +102,7 @@ def replay(record):
             _, opt = _build(c2, vals, None, given_params=sp)
             for k in range(1, cfg["T"] + 1):
                 for i, p in zip(idx, sp):
-                    present = not (cfg.get("presence") == "symbolic" and not bool(vals.get(f"present_p{i}_s{k}", False)))
+                    present = not (cfg.get("presence") == "symbolic" and (cfg.get("presence_params") is None or i in cfg["presence_params"]) and not bool(vals.get(f"present_p{i}_s{k}", False)))
                     p.grad = _orig_vals(cfg, vals, "g", i, origs[i], k).reshape(origs[i])[rows[i][0]:rows[i][1]].clone() if present else None
                 opt.step()
             for rep in range(hybrid["replicate"] if hybrid else 1):
